@@ -283,7 +283,11 @@ def execute(plan):
     if fault is not None and fault["kind"] in ("T", "R"):
         abstract += "|%d" % (fault["off"] * 40 // max(1, ent["size"]))   # position bucket
     ub = r.stderr.count(b"runtime error:") if kind == "san" else 0
-    h = runner.sha(json.dumps([plan, r.outcome(), runner.sha(re.sub(rb"0x[0-9a-f]+|==\d+==", b"", r.stderr)), outs], sort_keys=True))
+    if r.timeout:
+        # how much a hanging process managed to print before it was killed is not part of the run's identity
+        h = runner.sha(json.dumps([plan, "timeout"], sort_keys=True))
+    else:
+        h = runner.sha(json.dumps([plan, r.outcome(), runner.sha(re.sub(rb"0x[0-9a-f]+|==\d+==", b"", r.stderr)), outs], sort_keys=True))
     return {"violations": violations, "harness_faults": [], "abstract": abstract, "hash": h,
             "nontrivial": fault is not None, "fault_kind": fk, "fired": fired, "outcome": outcome_class,
             "arith_ubsan": ub, "diag": bool(DIAG.search(r.stderr))}
